@@ -1,8 +1,345 @@
-//! Classifier predicates for known findings (filled in as findings are triaged).
+//! Classifier predicates for known findings (DESIGN.md §5.2).
+//!
+//! Every classifier has the shape "trigger present in the input AND a counterfactual repair of the input
+//! makes the violation disappear under the same configuration". The repair keeps classes tight: a new cause
+//! that merely co-occurs with a known trigger survives the repair and is reported as a fresh violation.
+
+use typst_syntax::{SyntaxKind as K, SyntaxNode};
 
 use crate::engine::Violation;
 use crate::findings::Finding;
+use crate::tree;
+use crate::util;
 
-pub fn matches(_f: &Finding, _v: &Violation) -> bool {
-    false
+/// Re-evaluate the violated property on a modified input. Some(true) = still violated.
+pub fn recheck(v: &Violation, new_input: &str) -> Option<bool> {
+    crate::props::violated(v, new_input)
+}
+
+pub fn matches(f: &Finding, v: &Violation) -> bool {
+    match f.classifier.as_str() {
+        "input_list" => {
+            let h = util::sha_hex(&v.input);
+            f.params["inputs"].as_array().map(|a| a.iter().any(|x| x.as_str() == Some(&h))).unwrap_or(false)
+        }
+        "comment_key" => {
+            let keys: Vec<&str> = f.params["keys"].as_array().map(|a| a.iter().filter_map(|x| x.as_str()).collect()).unwrap_or_default();
+            culprit_comment_keys(v).iter().any(|k| keys.contains(&k.as_str()))
+        }
+        "repair" => {
+            let name = f.params["repair"].as_str().unwrap_or("");
+            match repair(name, &v.input) {
+                Some(r) if r != v.input => recheck(v, &r) == Some(false),
+                _ => false,
+            }
+        }
+        "panic_site" => {
+            let site = f.params["site"].as_str().unwrap_or("\u{0}");
+            v.detail.contains(site)
+        }
+        _ => false,
+    }
+}
+
+// ------------------------------------------------------------------------------------------------
+// comment position keys
+
+/// (shape, parent, grandparent, previous and next non-blank sibling kind) of the comment at leaf index.
+pub fn comment_key(root: &SyntaxNode, comment_start: usize) -> Option<String> {
+    let mut found: Option<String> = None;
+    tree::walk(root, &mut |n, off, anc| {
+        if found.is_some() || off != comment_start || !tree::is_comment(n.kind()) {
+            return;
+        }
+        let parent = anc.last().copied();
+        let grand = if anc.len() >= 2 { Some(anc[anc.len() - 2]) } else { None };
+        let shape = if n.kind() == K::LineComment {
+            "L"
+        } else if n.text().contains('\n') {
+            "M"
+        } else {
+            "B"
+        };
+        let (mut prev, mut next) = ("^".to_string(), "$".to_string());
+        if let Some(p) = parent {
+            let kids: Vec<&SyntaxNode> = p.children().collect();
+            // locate by pointer identity
+            if let Some(i) = kids.iter().position(|k| std::ptr::eq(*k, n)) {
+                if let Some(k) = kids[..i].iter().rev().find(|k| k.kind() != K::Space) {
+                    prev = format!("{:?}", k.kind());
+                }
+                if let Some(k) = kids[i + 1..].iter().find(|k| k.kind() != K::Space) {
+                    next = format!("{:?}", k.kind());
+                }
+            }
+        }
+        found = Some(format!(
+            "{}|{}|{}|{}|{}",
+            shape,
+            parent.map(|p| format!("{:?}", p.kind())).unwrap_or_else(|| "-".into()),
+            grand.map(|p| format!("{:?}", p.kind())).unwrap_or_else(|| "-".into()),
+            prev,
+            next
+        ));
+    });
+    found
+}
+
+/// Keys of all comments whose removal makes the violation disappear.
+pub fn culprit_comment_keys(v: &Violation) -> Vec<String> {
+    let Some(root) = tree::parse_ok(&v.input) else { return vec![] };
+    let leaves = tree::leaves(&root);
+    let comments: Vec<_> = leaves.iter().filter(|l| tree::is_comment(l.kind())).collect();
+    if comments.is_empty() || comments.len() > 400 {
+        return vec![];
+    }
+    let mut keys = vec![];
+    for c in comments {
+        // counterfactual inputs: the comment deleted / replaced by a blank (line comment: keep its line break)
+        let (s, e) = (c.start, c.end());
+        let variants = [
+            format!("{}{}", &v.input[..s], &v.input[e..]),
+            format!("{} {}", &v.input[..s], &v.input[e..]),
+        ];
+        let mut culprit = false;
+        for x in variants.iter() {
+            if tree::parse_ok(x).is_none() {
+                continue;
+            }
+            if recheck(v, x) == Some(false) {
+                culprit = true;
+                break;
+            }
+        }
+        if culprit {
+            if let Some(k) = comment_key(&root, c.start) {
+                if !keys.contains(&k) {
+                    keys.push(k);
+                }
+            }
+        }
+    }
+    keys
+}
+
+// ------------------------------------------------------------------------------------------------
+// input repairs
+
+fn is_blank(c: char) -> bool {
+    c.is_whitespace() && !tree::is_newline_char(c)
+}
+
+/// Strip blanks that sit directly before a line break inside Str / Raw tokens.
+fn repair_eol_blank_in_literal(input: &str) -> Option<String> {
+    let root = tree::parse_ok(input)?;
+    let mut ranges: Vec<(usize, usize)> = vec![];
+    tree::walk(&root, &mut |n, off, _| {
+        if matches!(n.kind(), K::Str | K::Raw) {
+            ranges.push((off, off + n.len()));
+        }
+    });
+    let mut out = String::with_capacity(input.len());
+    let mut changed = false;
+    let chars: Vec<(usize, char)> = input.char_indices().collect();
+    let in_lit = |p: usize| ranges.iter().any(|&(a, b)| p >= a && p < b);
+    let mut i = 0;
+    while i < chars.len() {
+        let (p, c) = chars[i];
+        if is_blank(c) && in_lit(p) {
+            // look ahead: run of blanks followed by a newline?
+            let mut j = i;
+            while j < chars.len() && is_blank(chars[j].1) {
+                j += 1;
+            }
+            if j < chars.len() && tree::is_newline_char(chars[j].1) && in_lit(chars[j].0) {
+                changed = true;
+                i = j;
+                continue;
+            }
+        }
+        out.push(c);
+        i += 1;
+    }
+    if changed {
+        Some(out)
+    } else {
+        None
+    }
+}
+
+/// Replace CRLF / CR inside Str / Raw tokens by LF (the post-pass rewrites them).
+fn repair_cr_in_literal(input: &str) -> Option<String> {
+    let root = tree::parse_ok(input)?;
+    let mut ranges: Vec<(usize, usize)> = vec![];
+    tree::walk(&root, &mut |n, off, _| {
+        if matches!(n.kind(), K::Str | K::Raw | K::BlockComment) {
+            ranges.push((off, off + n.len()));
+        }
+    });
+    let mut out = String::with_capacity(input.len());
+    let mut changed = false;
+    let mut prev_cr = false;
+    for (p, c) in input.char_indices() {
+        let inside = ranges.iter().any(|&(a, b)| p >= a && p < b);
+        if inside && c == '\r' {
+            out.push('\n');
+            changed = true;
+            prev_cr = true;
+            continue;
+        }
+        if inside && c == '\n' && prev_cr {
+            prev_cr = false;
+            continue;
+        }
+        prev_cr = false;
+        out.push(c);
+    }
+    if changed {
+        Some(out)
+    } else {
+        None
+    }
+}
+
+/// Strip non-ASCII blanks (NBSP, U+3000, …) that end a line outside literals.
+fn repair_nonascii_eol_blank(input: &str) -> Option<String> {
+    let mut out = String::with_capacity(input.len());
+    let mut changed = false;
+    for line in input.split_inclusive('\n') {
+        let (body, nl) = match line.strip_suffix('\n') {
+            Some(b) => (b, "\n"),
+            None => (line, ""),
+        };
+        let trimmed = body.trim_end_matches(|c: char| c.is_whitespace() && !tree::is_newline_char(c));
+        let tail = &body[trimmed.len()..];
+        if tail.chars().any(|c| !c.is_ascii()) {
+            out.push_str(trimmed);
+            changed = true;
+        } else {
+            out.push_str(body);
+        }
+        out.push_str(nl);
+    }
+    if changed {
+        Some(out)
+    } else {
+        None
+    }
+}
+
+/// Insert a blank after a parenthesized literal that is directly followed by text.
+fn repair_paren_literal_then_text(input: &str) -> Option<String> {
+    let root = tree::parse_ok(input)?;
+    let mut inserts: Vec<usize> = vec![];
+    tree::walk(&root, &mut |n, off, _| {
+        if n.kind() == K::Parenthesized {
+            let end = off + n.len();
+            if let Some(c) = input[end..].chars().next() {
+                if !c.is_whitespace() && !matches!(c, ')' | ']' | '}' | ',' | ';') {
+                    inserts.push(end);
+                }
+            }
+        }
+    });
+    if inserts.is_empty() {
+        return None;
+    }
+    inserts.sort_unstable();
+    inserts.dedup();
+    let mut out = String::with_capacity(input.len() + inserts.len());
+    let mut last = 0;
+    for p in inserts {
+        out.push_str(&input[last..p]);
+        out.push(' ');
+        last = p;
+    }
+    out.push_str(&input[last..]);
+    Some(out)
+}
+
+/// Unwrap parentheses around the value of a table/grid `columns:` argument.
+fn repair_table_columns_paren(input: &str) -> Option<String> {
+    let root = tree::parse_ok(input)?;
+    let mut cuts: Vec<(usize, usize)> = vec![]; // byte ranges to delete
+    tree::walk(&root, &mut |n, off, anc| {
+        if n.kind() != K::Parenthesized {
+            return;
+        }
+        let Some(parent) = anc.last() else { return };
+        if parent.kind() != K::Named {
+            return;
+        }
+        let is_columns = parent.children().next().map(|c| c.text() == "columns").unwrap_or(false);
+        if !is_columns {
+            return;
+        }
+        // delete the outer "(" and ")" (with adjacent blanks)
+        let text = &input[off..off + n.len()];
+        let open_len = 1 + text[1..].len() - text[1..].trim_start().len();
+        let close_len = 1 + text[..text.len() - 1].len() - text[..text.len() - 1].trim_end().len();
+        cuts.push((off, off + open_len));
+        cuts.push((off + n.len() - close_len, off + n.len()));
+    });
+    if cuts.is_empty() {
+        return None;
+    }
+    cuts.sort_unstable();
+    let mut out = String::new();
+    let mut last = 0;
+    for (a, b) in cuts {
+        if a < last {
+            continue;
+        }
+        out.push_str(&input[last..a]);
+        last = b;
+    }
+    out.push_str(&input[last..]);
+    Some(out)
+}
+
+/// Put a blank inside content blocks that hold only comments: `[/* c */]` -> `[ /* c */ ]`.
+fn repair_comment_only_content(input: &str) -> Option<String> {
+    let root = tree::parse_ok(input)?;
+    let mut inserts: Vec<usize> = vec![];
+    tree::walk(&root, &mut |n, off, anc| {
+        if n.kind() != K::Markup {
+            return;
+        }
+        let Some(parent) = anc.last() else { return };
+        if parent.kind() != K::ContentBlock {
+            return;
+        }
+        let has_comment = n.children().any(|c| tree::is_comment(c.kind()));
+        let only_trivia = n.children().all(|c| tree::is_comment(c.kind()) || c.kind() == K::Space);
+        let has_space = n.children().any(|c| c.kind() == K::Space);
+        if has_comment && only_trivia && !has_space {
+            inserts.push(off);
+            inserts.push(off + n.len());
+        }
+    });
+    if inserts.is_empty() {
+        return None;
+    }
+    inserts.sort_unstable();
+    let mut out = String::new();
+    let mut last = 0;
+    for p in inserts {
+        out.push_str(&input[last..p]);
+        out.push(' ');
+        last = p;
+    }
+    out.push_str(&input[last..]);
+    Some(out)
+}
+
+pub fn repair(name: &str, input: &str) -> Option<String> {
+    match name {
+        "eol_blank_in_literal" => repair_eol_blank_in_literal(input),
+        "cr_in_literal" => repair_cr_in_literal(input),
+        "nonascii_eol_blank" => repair_nonascii_eol_blank(input),
+        "paren_literal_then_text" => repair_paren_literal_then_text(input),
+        "table_columns_paren" => repair_table_columns_paren(input),
+        "comment_only_content" => repair_comment_only_content(input),
+        _ => None,
+    }
 }
